@@ -137,7 +137,7 @@ ObsF(e) == { e.res.ok.funcs[i].addr : i \in 1..Len(e.res.ok.funcs) }
 ObsE(e) == { e.res.ok.errors[i].addr : i \in 1..Len(e.res.ok.errors) }
 ObsCalls(e) == [a \in ObsF(e) |->
                   UNION { RangeOf(e.res.ok.funcs[i].calls) : i \in { j \in 1..Len(e.res.ok.funcs) : e.res.ok.funcs[j].addr = a } }]
-ExecEntries(d, b, us) == { a \in EntryLower(d, b, us) : ExecAt(d, b, a) }
+ExecOf(d, b, as) == { a \in as : ExecAt(d, b, a) }
 
 \* generated code: the call graph the text was assembled from.  Position-independent calls move
 \* with the base; the region-absolute MIPS jal only denotes the intended target at base 0.
@@ -148,10 +148,9 @@ BadCalls(d, b, e) ==
   { c \in Anchors(d) : /\ AnchorApplies(c, b) /\ AddA(c.addr, b) \in ObsF(e)
                         /\ ObsCalls(e)[AddA(c.addr, b)] # AnchorWant(c, b) }
 
-ProgParts(d, b, us, e, rec) ==
+ProgParts(d, b, lower, upper, e, rec) ==
   LET F == ObsF(e)  E == ObsE(e)
-      lower == EntryLower(d, b, us)  upper == EntryUpper(d, b, us)
-      exec == ExecEntries(d, b, us)
+      exec == ExecOf(d, b, lower)
   IN [dup     |-> Card(F) = Len(e.res.ok.funcs),
       entries |-> IF rec THEN F \cap E = {} /\ exec \subseteq (F \cup E)
                   ELSE ProgramOK(lower, upper, exec, F, E),
@@ -162,19 +161,19 @@ ProgParts(d, b, us, e, rec) ==
                     ExecAt(d, b, e.res.ok.funcs[i].addr) =>
                       FuncNameOK(d, b, e.res.ok.funcs[i].addr, e.res.ok.funcs[i].name),
       calls   |-> BadCalls(d, b, e) = {}]
-ProgramEvOK(d, b, us, e, rec) ==
+ProgramEvOK(d, b, lower, upper, e, rec) ==
   /\ Clean(e.res)
-  /\ LET p == ProgParts(d, b, us, e, rec) IN p.dup /\ p.entries /\ p.closure /\ p.names /\ p.calls
-ProgramExp(d, b, us, e, rec) ==
+  /\ LET p == ProgParts(d, b, lower, upper, e, rec) IN p.dup /\ p.entries /\ p.closure /\ p.names /\ p.calls
+ProgramExp(d, b, lower, upper, e, rec) ==
   IF ~Clean(e.res) THEN [part |-> "outcome"]
-  ELSE LET p == ProgParts(d, b, us, e, rec)
+  ELSE LET p == ProgParts(d, b, lower, upper, e, rec)
            F == ObsF(e)  E == ObsE(e) IN
        [part |-> IF ~p.dup THEN "dup" ELSE IF ~p.entries THEN "entries" ELSE IF ~p.closure THEN "closure"
                  ELSE IF ~p.names THEN "names" ELSE "calls",
-        missing_entries |-> ExecEntries(d, b, us) \ (F \cup E),
-        not_entries |-> IF rec THEN {} ELSE (F \cup E) \ EntryUpper(d, b, us),
+        missing_entries |-> ExecOf(d, b, lower) \ (F \cup E),
+        not_entries |-> IF rec THEN {} ELSE (F \cup E) \ upper,
         unclosed |-> IF rec THEN UNION { ObsCalls(e)[f] \ (F \cup E) : f \in F } ELSE {},
-        unjustified |-> IF rec THEN (F \cup E) \ ReachFrom(EntryUpper(d, b, us), F, ObsCalls(e)) ELSE {},
+        unjustified |-> IF rec THEN (F \cup E) \ ReachFrom(upper, F, ObsCalls(e)) ELSE {},
         badcalls |-> { [fn |-> AddA(c.addr, b), want |-> AnchorWant(c, b), got |-> ObsCalls(e)[AddA(c.addr, b)]] :
                        c \in BadCalls(d, b, e) },
         all_got_empty |-> \A c \in BadCalls(d, b, e) : ObsCalls(e)[AddA(c.addr, b)] = {},
@@ -199,6 +198,84 @@ JEntriesOK(j, obs) ==
   /\ JListed(j) \subseteq obs
   /\ \A x \in obs \ JListed(j) : x[1] = j.entry
 IsJson == S.src = "json"
+
+(* ------------------------------ the PE loader -------------------------- *)
+(* pdesc (from llvm-readobj): machine, image_base, entry (RVA), hdr (the    *)
+(* SizeOfHeaders file bytes), sections [rva, vsize, rawsize, perm <<r,w,x>>,*)
+(* bytes = the raw data], exports [name, rva].  A section occupies          *)
+(* VirtualSize bytes at image_base + rva: the raw data (as far as it        *)
+(* reaches), then zero fill.  A loader may in addition map what the file    *)
+(* holds beyond VirtualSize up to the raw size (alignment padding) and the  *)
+(* headers at image_base - hence a lower and an upper image.                *)
+IsPe == S.src = "pe"
+PVs(x) == IF x.vsize = 0 THEN x.rawsize ELSE x.vsize
+PMin(a, bb) == IF a < bb THEN a ELSE bb
+PMax(a, bb) == IF a > bb THEN a ELSE bb
+PFlags(perm) == (IF perm[1] THEN PF_R ELSE 0) + (IF perm[2] THEN PF_W ELSE 0) + (IF perm[3] THEN PF_X ELSE 0)
+PSeg(p, x, fs, ms) ==
+  [type |-> PT_LOAD, off |-> 0, vaddr |-> AddA(p.image_base, x.rva), filesz |-> fs, memsz |-> ms,
+   flags |-> PFlags(x.perm), bytes |-> SubSeq(x.bytes, 1, fs)]
+PExecRva(p, rva) == \E k \in 1..Len(p.sections) :
+                      /\ p.sections[k].perm[3]
+                      /\ Ltu(AddrBits, SubA(rva, p.sections[k].rva), A(PVs(p.sections[k])))
+PSymtab(p) == [k \in 1..Len(p.exports) |->
+                 [name |-> p.exports[k].name, value |-> AddA(p.image_base, p.exports[k].rva),
+                  type |-> IF PExecRva(p, p.exports[k].rva) THEN STT_FUNC ELSE STT_OBJECT,
+                  bind |-> STB_GLOBAL, shndx |-> 1]]
+PBase(p, segs) ==
+  [cls |-> 32, data |-> "LE", machine |-> p.machine, etype |-> 2, entry |-> AddA(p.image_base, p.entry),
+   segs |-> segs, symtab |-> PSymtab(p), dynsym |-> <<>>, pltrel |-> <<>>]
+PLower(p) == PBase(p, [k \in 1..Len(p.sections) |->
+                         PSeg(p, p.sections[k], PMin(p.sections[k].rawsize, PVs(p.sections[k])), PVs(p.sections[k]))])
+PUpper(p) == PBase(p, <<[type |-> PT_LOAD, off |-> 0, vaddr |-> p.image_base, filesz |-> Len(p.hdr), memsz |-> Len(p.hdr),
+                         flags |-> PF_R, bytes |-> p.hdr]>> \o
+                      [k \in 1..Len(p.sections) |->
+                         PSeg(p, p.sections[k], p.sections[k].rawsize, PMax(p.sections[k].rawsize, PVs(p.sections[k])))])
+PArchName(p) == CASE p.machine = 332 -> "x86" [] p.machine = 34404 -> "amd64" [] p.machine = 358 -> "mipsel"
+                  [] OTHER -> "unsupported"
+
+PExportAddrs(p, pred(_)) == { AddA(p.image_base, p.exports[k].rva) : k \in { j \in 1..Len(p.exports) : pred(p.exports[j]) } }
+PEntryLower(p) == PExportAddrs(p, LAMBDA x : PExecRva(p, x.rva))
+                  \cup (IF IsZero(p.entry) THEN {} ELSE {AddA(p.image_base, p.entry)})
+PEntryUpper(p) == PExportAddrs(p, LAMBDA x : TRUE) \cup {AddA(p.image_base, p.entry)}
+PEntriesOK(p, obs) ==
+  LET addrs == { x[1] : x \in obs } IN
+  /\ PEntryLower(p) \subseteq addrs /\ addrs \subseteq PEntryUpper(p)
+  /\ \A x \in obs : x[2] # "" =>
+        \/ \E k \in 1..Len(p.exports) : p.exports[k].name = x[2] /\ AddA(p.image_base, p.exports[k].rva) = x[1]
+        \/ x[1] = AddA(p.image_base, p.entry)
+PSyms(p) == { Sym(p.exports[k].name, AddA(p.image_base, p.exports[k].rva)) : k \in { j \in 1..Len(p.exports) : p.exports[j].name # "" } }
+
+\* memory between the lower and the upper image (relative coordinates from image_base)
+PMemParts(p, e) ==
+  LET secs  == e.res.ok.sections
+      O     == p.image_base
+      fast  == TLCEval(RelOK(S.udesc, AZero, O) /\ ObsRelOK(secs, O))
+      cells == TLCEval(IF fast THEN ObsRel(secs, O) ELSE ObsCells(secs))
+      lo    == TLCEval(IF fast THEN ImageRel(S.desc, AZero, O) ELSE Image(S.desc, AZero))
+      up    == TLCEval(IF fast THEN ImageRel(S.udesc, AZero, O) ELSE Image(S.udesc, AZero))
+      at(a, i) == IF fast THEN (IF Rel(a, O) = RelCap THEN <<-1, <<>>>> ELSE CellAt(cells, Rel(a, O) + i))
+                  ELSE CellAt(cells, AddOff(a, i))
+  IN [lower   |-> lo \subseteq cells,
+      upper   |-> cells \subseteq up,
+      overlap |-> Card(cells) = TotalLen(secs, 1),
+      \* the point queries agree with the reported sections
+      probes  |-> \A i \in 1..Len(e.probes) : Has(e.probes[i], "byte") /\ at(e.probes[i].addr, 0) = <<e.probes[i].byte, e.probes[i].perm>>,
+      w32     |-> \A i \in 1..Len(e.w32) :
+                    /\ Has(e.w32[i], "val")
+                    /\ e.w32[i].val # <<>> => LET bb == [j \in 1..4 |-> at(e.w32[i].addr, j - 1)[1]] IN
+                                               (\A j \in 1..4 : bb[j] # -1) /\ e.w32[i].val = Word32(S.desc, bb),
+      missing |-> Card(lo \ cells), extra |-> Card(cells \ up),
+      missing_is_zero_fill |-> \A c \in lo \ cells : c[2] = 0]
+PMemoryOK(p, e) ==
+  /\ Clean(e.res)
+  /\ LET q == PMemParts(p, e) IN q.lower /\ q.upper /\ q.overlap /\ q.probes /\ q.w32
+PMemoryExp(p, e) ==
+  IF ~Clean(e.res) THEN [part |-> "outcome"]
+  ELSE LET q == PMemParts(p, e) IN
+       [part |-> IF ~q.lower THEN "lower" ELSE IF ~q.upper THEN "upper" ELSE IF ~q.overlap THEN "overlap"
+                 ELSE IF ~q.probes THEN "probes" ELSE "w32",
+        missing |-> q.missing, extra |-> q.extra, missing_is_zero_fill |-> q.missing_is_zero_fill]
 
 (* ------------------------------ linked sets ---------------------------- *)
 Objs == [k \in 1..Len(S.objs) |-> [name |-> S.objs[k].name, base |-> bases[k], d |-> S.objs[k].desc]]
@@ -284,16 +361,23 @@ LPentryExp(e) == IF ~Clean(e.res) \/ ~Linked THEN [part |-> "outcome"]
                  ELSE [want |-> ProgramEntry(Objs[1].d, Objs[1].base)]
 
 (* ------------------------------ dispatch ------------------------------- *)
+\* function-entry bounds of the current session
+LowerE == IF IsPe THEN PEntryLower(S.pdesc) ELSE EntryLower(S.desc, base, users)
+UpperE == IF IsPe THEN PEntryUpper(S.pdesc) ELSE EntryUpper(S.desc, base, users)
+
 EventOK(e) ==
   CASE e.ev = "new"      -> Clean(e.res)
-    [] e.ev = "arch"     -> ArchCheck(S.desc, e)
-    [] e.ev = "memory"   -> MemoryOK(S.desc, base, e)
+    [] e.ev = "arch"     -> IF IsPe THEN Has(e, "name") /\ e.name = PArchName(S.pdesc) /\ e.endian = "little"
+                            ELSE ArchCheck(S.desc, e)
+    [] e.ev = "memory"   -> IF IsPe THEN PMemoryOK(S.pdesc, e) ELSE MemoryOK(S.desc, base, e)
     [] e.ev = "entries"  -> IF IsJson THEN Clean(e.res) /\ JEntriesOK(S.jdesc, ObsEntries(e))
+                            ELSE IF IsPe THEN Clean(e.res) /\ PEntriesOK(S.pdesc, ObsEntries(e))
                             ELSE EntriesCheck(S.desc, base, users, e)
     [] e.ev = "symbols"  -> IF IsJson THEN Clean(e.res) /\ ObsSyms(e) \subseteq SymUpper(S.desc, base)
+                            ELSE IF IsPe THEN Clean(e.res) /\ ObsSyms(e) = PSyms(S.pdesc)
                             ELSE SymbolsCheck(S.desc, base, e)
-    [] e.ev = "program"  -> ProgramEvOK(S.desc, base, users, e, FALSE)
-    [] e.ev = "rprogram" -> ProgramEvOK(S.desc, base, users, e, TRUE)
+    [] e.ev = "program"  -> ProgramEvOK(S.desc, base, LowerE, UpperE, e, FALSE)
+    [] e.ev = "rprogram" -> ProgramEvOK(S.desc, base, LowerE, UpperE, e, TRUE)
     [] e.ev = "pentry"   -> PentryCheck(S.desc, base, e)
     [] e.ev = "link"     -> LinkCheck(e)
     [] e.ev = "lmemory"  -> LMemoryOK(e)
@@ -304,12 +388,18 @@ EventOK(e) ==
 
 Expected(e) ==
   CASE e.ev = "new"      -> [ok |-> 1]
-    [] e.ev = "arch"     -> [name |-> ArchName(S.desc), endian |-> Endian(S.desc)]
-    [] e.ev = "memory"   -> MemoryExp(S.desc, base, e)
-    [] e.ev = "entries"  -> IF IsJson THEN [listed |-> JListed(S.jdesc)] ELSE EntriesExp(S.desc, base, users, e)
-    [] e.ev = "symbols"  -> SymbolsExp(S.desc, base, e)
-    [] e.ev = "program"  -> ProgramExp(S.desc, base, users, e, FALSE)
-    [] e.ev = "rprogram" -> ProgramExp(S.desc, base, users, e, TRUE)
+    [] e.ev = "arch"     -> IF IsPe THEN [name |-> PArchName(S.pdesc), endian |-> "little"]
+                            ELSE [name |-> ArchName(S.desc), endian |-> Endian(S.desc)]
+    [] e.ev = "memory"   -> IF IsPe THEN PMemoryExp(S.pdesc, e) ELSE MemoryExp(S.desc, base, e)
+    [] e.ev = "entries"  -> IF IsJson THEN [listed |-> JListed(S.jdesc)]
+                            ELSE IF IsPe THEN [lower |-> PEntryLower(S.pdesc), upper |-> PEntryUpper(S.pdesc)]
+                            ELSE EntriesExp(S.desc, base, users, e)
+    [] e.ev = "symbols"  -> IF IsPe THEN [want |-> PSyms(S.pdesc),
+                                          file_offsets |-> Clean(e.res) /\ ObsSyms(e) # PSyms(S.pdesc)
+                                                           /\ { x[1] : x \in ObsSyms(e) } = { x[1] : x \in PSyms(S.pdesc) }]
+                            ELSE SymbolsExp(S.desc, base, e)
+    [] e.ev = "program"  -> ProgramExp(S.desc, base, LowerE, UpperE, e, FALSE)
+    [] e.ev = "rprogram" -> ProgramExp(S.desc, base, LowerE, UpperE, e, TRUE)
     [] e.ev = "pentry"   -> PentryExp(S.desc, base, e)
     [] e.ev = "link"     -> [ok |-> "every object loaded"]
     [] e.ev = "lmemory"  -> LMemoryExp(e)
@@ -322,6 +412,7 @@ Expected(e) ==
 \* is reported as such (why = "ill-formed"), never judged
 BeginOK(e) == IF e.src = "link" THEN \A k \in 1..Len(e.objs) : WellFormed(e.objs[k].desc)
               ELSE IF e.src = "json" THEN WellFormed(JDesc(e.jdesc))
+              ELSE IF e.src = "pe" THEN WellFormed(PLower(e.pdesc)) /\ WellFormed(PUpper(e.pdesc))
               ELSE WellFormed(e.desc)
 
 Init == l = 1 /\ S = <<>> /\ base = AZero /\ users = <<>> /\ bases = <<>>
@@ -330,7 +421,9 @@ Next ==
   /\ l' = l + 1
   /\ LET e == Rec[l] IN
      IF e.ev = "begin" THEN
-       /\ S' = IF e.src = "json" THEN [src |-> "json", jdesc |-> e.jdesc, desc |-> JDesc(e.jdesc)] ELSE e
+       /\ S' = IF e.src = "json" THEN [src |-> "json", jdesc |-> e.jdesc, desc |-> JDesc(e.jdesc)]
+               ELSE IF e.src = "pe" THEN [src |-> "pe", pdesc |-> e.pdesc, desc |-> PLower(e.pdesc), udesc |-> PUpper(e.pdesc)]
+               ELSE e
        /\ base' = AZero /\ users' = <<>> /\ bases' = <<>>
        /\ BeginOK(e) \/ Reject(l, "ill-formed", [harness |-> "description is not well-formed"])
      ELSE IF e.ev = "load" THEN
